@@ -61,6 +61,8 @@ MENU = {
     "zncc9": ("matching_cost", {"matching_cost_method": "zncc", "window_size": 9}),
     "cbca": ("aggregation", {"aggregation_method": "cbca"}),
     "opt": ("optimization", {"optimization_method": STUB}),
+    # the documented default prior spelled out by the user: same margins as when it is omitted
+    "optgp": ("optimization", {"optimization_method": STUB, "geometric_prior": {"source": "internal"}}),
     "std": ("cost_volume_confidence", {"confidence_method": "std_intensity"}),
     "amb": ("cost_volume_confidence", {"confidence_method": "ambiguity"}),
     "wta": ("disparity", {"disparity_method": "wta"}),
@@ -80,9 +82,9 @@ MENU = {
     "ms": ("multiscale", {"multiscale_method": "fixed_zoom_pyramid"}),
 }
 MENUS = {
-    "quick": {"mc": ["sad1", "sad3", "sad5", "sad7", "ssd"], "cv": ["cbca", "opt", "amb"],
+    "quick": {"mc": ["sad1", "sad3", "sad5", "sad7", "ssd"], "cv": ["cbca", "opt", "optgp", "amb"],
               "dm": ["med1", "med3", "med5", "bil0.5", "bil1", "bil6", "bil", "mfi3", "vfit", "cross", "ms"]},
-    "full": {"mc": ["sad1", "sad3", "sad5", "sad7", "ssd", "census3", "zncc9"], "cv": ["cbca", "opt", "std", "amb"],
+    "full": {"mc": ["sad1", "sad3", "sad5", "sad7", "ssd", "census3", "zncc9"], "cv": ["cbca", "opt", "optgp", "std", "amb"],
              "dm": ["med1", "med3", "med5", "med", "bil0.5", "bil1", "bil6", "bil", "mfi3", "vfit", "quad", "cross",
                     "ms"]},
     "reduced": {"mc": ["sad3", "sad7"], "cv": ["cbca", "opt"], "dm": ["med3", "bil1", "vfit", "cross", "ms"]},
